@@ -166,6 +166,16 @@ def _tail(text, n):
     return "\n".join(lines[-n:])
 
 
+def err_excerpt(stdout, n=2500):
+    """the part of TLC's output that starts at the first error"""
+    lines = [ln for ln in stdout.splitlines()
+             if not ln.startswith(("Parsing file", "Semantic processing",
+                                   "Linting of", '"{', "Computed "))]
+    text = "\n".join(lines)
+    i = text.find("Error:")
+    return text[i:i + n] if i >= 0 else text[-n:]
+
+
 def need_ok(res, what):
     """Design-level TLC run must pass; anything else is a machinery problem
     (the design spec is part of the framework, not of the code under test)."""
